@@ -42,6 +42,7 @@ Next ==
   \/ ChildOut(1, 1) \/ ChildErr(1, 1)
   \/ ChildClose(1, 1)
   \/ ChildRead(1, 1)
+  \/ ChildCloseX(1)
 
 Spec == Init /\ [][Next]_vars
 Export == ExportRet
